@@ -27,6 +27,8 @@ def generate(ctx):
         k = i % 9
         if k >= 6:
             a = falib.rand_fa(rng, names=rng.choice(["plain", "int"]), max_states=3)
+            if rng.random() < 0.3:      # the operations go through to_regex: operands on which state elimination has real work to do
+                a = falib.rand_elim_fa(rng, names=rng.choice(["plain", "int"]))
             if k == 8:
                 cases.append({"op": "kleene_star", "fa": a})
             else:
